@@ -623,12 +623,26 @@ type result struct {
 var killCount int
 var killMu sync.Mutex
 
-func runCase(f *csnet.Fixture, self int, h uint64, r, pol int, seen bool, cors []corruption) result {
+func runCase(f *csnet.Fixture, self int, h uint64, r, pol int, seen bool, cors []corruption, vch bool) result {
 	var res result
 	w := newWorld(f, self)
 	defer w.n.Close()
 	// the scripted prefix is fully honest: if the node panics in it, or an honest height does not commit, that is a
 	// finding about the node (a correct node aborted or wedged without any Byzantine input), not a harness error
+	if vch && h >= 2 {
+		// what the application returns from the commit of height h-1: the same validators, slots 2 and 3 with ten times the
+		// power (2 of 4 slots of the old set, 20 of 22 of the new power)
+		var nv []*types.Validator
+		for i, v := range w.status().Validators.Validators {
+			c := v.Copy()
+			c.Accum = 0
+			if i >= 2 {
+				c.VotingPower *= 10
+			}
+			nv = append(nv, c)
+		}
+		w.n.App.NextVals[h-1] = nv
+	}
 	reached := false
 	if p, v := vk.Catch(func() {
 		for w.h < h {
@@ -649,6 +663,11 @@ func runCase(f *csnet.Fixture, self int, h uint64, r, pol int, seen bool, cors [
 	}
 	if !reached {
 		return res
+	}
+	if vch && h >= 2 {
+		if st := w.status(); st.Validators.TotalVotingPower() == st.LastValidators.TotalVotingPower() {
+			vk.Fatalf("validator-change case at height %d is vacuous: the set in force (power %d) equals the set that committed the previous block", h, st.Validators.TotalVotingPower())
+		}
 	}
 	base := w.proposer(r)
 	if seen {
@@ -789,6 +808,7 @@ func main() {
 		self int
 		seen bool // the node validated and prevoted the honest block in round r-1; the corrupted proposal is built from it
 		cs   []corruption
+		vch  bool // the block at height h-1 changed the validators' powers: the set in force at h differs from the set that committed h-1
 	}
 	var jobs []job
 	st := f.GenesisStatus()
@@ -798,12 +818,21 @@ func main() {
 			for self := 0; self < 4; self++ {
 				for pol := -1; pol < rd; pol++ {
 					for _, c := range cors {
-						jobs = append(jobs, job{h, rd, pol, self, false, []corruption{c}})
+						jobs = append(jobs, job{h, rd, pol, self, false, []corruption{c}, false})
 						if rd > 0 && pol == -1 {
-							jobs = append(jobs, job{h, rd, pol, self, true, []corruption{c}})
+							jobs = append(jobs, job{h, rd, pol, self, true, []corruption{c}, false})
 						}
 					}
 				}
+			}
+		}
+	}
+	// the same single corruptions where the previous block changed the validators' powers (heights 2..3, round 0): the last
+	// commit is judged by the set that signed it, everything else by the set in force now
+	for h := uint64(2); h <= 3; h++ {
+		for self := 0; self < 4; self++ {
+			for _, c := range cors {
+				jobs = append(jobs, job{h, 0, -1, self, false, []corruption{c}, true})
 			}
 		}
 	}
@@ -817,7 +846,7 @@ func main() {
 			for _, a := range cors {
 				for _, b := range cors {
 					if a.name < b.name {
-						jobs = append(jobs, job{h, rd, rd - 1, 3, false, []corruption{a, b}})
+						jobs = append(jobs, job{h, rd, rd - 1, 3, false, []corruption{a, b}, false})
 					}
 				}
 			}
@@ -831,6 +860,7 @@ func main() {
 			Node        int      `json:"node"`
 			Seen        bool     `json:"honest_block_validated_in_earlier_round"`
 			Corruptions []string `json:"corruptions"`
+			VCh         bool     `json:"validator_powers_changed_at_previous_height"`
 		}
 		r.LoadReplay(&rep)
 		var sel []corruption
@@ -845,7 +875,7 @@ func main() {
 			vk.Fatalf("replay: unknown corruption in %v", rep.Corruptions)
 		}
 		for i := 0; i < 5; i++ {
-			res := runCase(f, rep.Node, rep.Height, rep.Round, rep.Pol, rep.Seen, sel)
+			res := runCase(f, rep.Node, rep.Height, rep.Round, rep.Pol, rep.Seen, sel, rep.VCh)
 			fmt.Printf("replay run %d: prevoted=%v precommitted=%v committed=%v applied=%v refValid=%v repoValid=%v\n", i, res.prevoted, res.precommitted, res.committed, res.applied, res.refOK, res.repoOK)
 			if res.viol[0] != "" {
 				r.Violation(res.viol[0], res.viol[1], rep)
@@ -864,12 +894,12 @@ func main() {
 			return
 		}
 		j := jobs[i]
-		res := runCase(f, j.self, j.h, j.r, j.pol, j.seen, j.cs)
+		res := runCase(f, j.self, j.h, j.r, j.pol, j.seen, j.cs, j.vch)
 		mu.Lock()
 		defer mu.Unlock()
 		done++
 		if res.preViol[0] != "" {
-			r.Violation(res.preViol[0], res.preViol[1], map[string]interface{}{"height": j.h, "round": j.r, "pol_round": j.pol, "node": j.self, "honest_block_validated_in_earlier_round": j.seen, "corruptions": []string{}})
+			r.Violation(res.preViol[0], res.preViol[1], map[string]interface{}{"height": j.h, "round": j.r, "pol_round": j.pol, "node": j.self, "honest_block_validated_in_earlier_round": j.seen, "corruptions": []string{}, "validator_powers_changed_at_previous_height": j.vch})
 			return
 		}
 		if !res.applicable || !res.encodable {
@@ -892,7 +922,7 @@ func main() {
 			names = append(names, c.name)
 		}
 		if res.viol[0] != "" {
-			r.Violation(res.viol[0], res.viol[1], map[string]interface{}{"height": j.h, "round": j.r, "pol_round": j.pol, "node": j.self, "honest_block_validated_in_earlier_round": j.seen, "corruptions": names})
+			r.Violation(res.viol[0], res.viol[1], map[string]interface{}{"height": j.h, "round": j.r, "pol_round": j.pol, "node": j.self, "honest_block_validated_in_earlier_round": j.seen, "corruptions": names, "validator_powers_changed_at_previous_height": j.vch})
 		}
 		if i%97 == 0 {
 			r.Sample(map[string]interface{}{"height": j.h, "round": j.r, "corruptions": names, "reference_valid": res.refOK, "ValidateBlock_valid": res.repoOK,
